@@ -142,7 +142,7 @@ def run_job(job, unit_c, workdir, incdirs):
         res['reason'] = 'goto-cc failed: ' + (err or out)[-2000:]
         return res
     if job.enforce or job.replace or job.loops:
-        cmd = 'goto-instrument --dfcc %s' % job.harness
+        cmd = 'goto-instrument --no-malloc-may-fail --dfcc %s' % job.harness
         if job.enforce:
             cmd += ' --enforce-contract %s' % job.enforce
         for r in job.replace:
@@ -157,7 +157,7 @@ def run_job(job, unit_c, workdir, incdirs):
             return res
     else:
         b_gb = a_gb
-    flags = '--object-bits 12 --drop-unused-functions ' + job.flags
+    flags = '--object-bits 12 --drop-unused-functions --no-malloc-may-fail ' + job.flags
     if job.unwind:
         flags += ' --unwind %s --unwinding-assertions' % job.unwind
     # ---- list the obligations and partition them into back-end groups
@@ -572,7 +572,7 @@ def _run_check(pid, tier, seed, udir, meta, work, ev_path, t0, only):
     return 0
 
 
-def native_build(udir, work, templates, driver, out, extra=''):
+def native_build(udir, work, templates, driver, out, extra='', link=''):
     """Compile the extracted C natively (CM_NATIVE) and link with a C++ driver
     that includes the real headers."""
     objs = []
@@ -589,9 +589,10 @@ def native_build(udir, work, templates, driver, out, extra=''):
     if not os.path.exists(os.path.join(build_inc, 'Configuration.hpp')):
         # generated configuration headers of the pinned build (copied by setup from /repo/_build/src)
         build_inc = os.path.join(VERIF, 'prelude', 'config_fallback')
+    extra = extra + ' -I/usr/include/hdf5/serial -I/usr/lib/x86_64-linux-gnu/openmpi/include -I/usr/lib/x86_64-linux-gnu/openmpi/include/openmpi'
     cmd = 'g++ -std=c++11 -O1 -ffp-contract=off -fopenmp -fno-access-control -w %s -I%s -I%s -I%s -I%s %s %s -o %s' % (
         extra, quote(os.path.join(REPO, 'src')), quote(build_inc), quote(os.path.join(VERIF, 'prelude')), quote(udir),
-        quote(driver), ' '.join(quote(o) for o in objs), quote(out))
+        quote(driver), ' '.join(quote(o) for o in objs), quote(out)) + ' ' + link
     rc, so, se, dt = sh(cmd, timeout=600)
     if rc != 0:
         raise Infra('native driver build failed: ' + se[-3000:])
@@ -599,7 +600,7 @@ def native_build(udir, work, templates, driver, out, extra=''):
 
 
 def run_fidelity(udir, work, templates, seed, tier, meta):
-    exe = native_build(udir, work, templates, os.path.join(udir, 'fidelity.cpp'), os.path.join(work, 'fidelity'))
+    exe = native_build(udir, work, templates, os.path.join(udir, 'fidelity.cpp'), os.path.join(work, 'fidelity'), link=meta.get('native_link', ''))
     n = meta.get('fidelity_samples', 20000) * (20 if tier == 'thorough' else 1)
     rc, so, se, dt = sh('%s fidelity %d %d' % (quote(exe), int(seed), n), timeout=900, cwd=work)
     if rc != 0:
@@ -617,7 +618,7 @@ def run_native_replay(udir, work, templates, rec, meta):
     try:
         exe = os.path.join(work, 'fidelity')
         if not os.path.exists(exe):
-            exe = native_build(udir, work, templates, drv, exe)
+            exe = native_build(udir, work, templates, drv, exe, link=meta.get('native_link', ''))
     except Infra as e:
         return dict(reproduced=False, reason='replay driver build failed: %s' % e)
     inp = os.path.join(work, 'replay_in.txt')
